@@ -3,13 +3,12 @@
 
 def _c31_classes(i, o):
     nres, mx, ops = i
-    cls = ['max=%d' % mx, 'reserved=%d' % nres, 'ops=%d' % min(len(ops), 30) if len(ops) < 10 else 'ops>=10']
+    cls = ['max=%d' % mx, 'reserved=%d' % nres, ('ops=%d' % len(ops)) if len(ops) < 10 else 'ops>=10']
     kinds = {0: 'connect', 1: 'identify', 2: 'disconnect', 3: 'score', 4: 'decay', 5: 'gossip'}
     for k in sorted(set(op[0] for op in ops)):
         cls.append('op=' + kinds.get(k, '?'))
     if isinstance(o, list) and o and o != [-777]:
-        full = any(isinstance(s, list) and len(s) >= 4 and isinstance(s[-2], list) and len(s[-2]) == mx and mx > 0 for s in o)
-        if full:
+        if mx > 0 and any(isinstance(s, list) and len(s) >= 4 and len(s[-2]) == mx for s in o):
             cls.append('table-full-reached')
         if any(isinstance(s, list) and len(s) == 6 and s[1] for s in o):
             cls.append('ban-issued')
@@ -17,9 +16,11 @@ def _c31_classes(i, o):
             cls.append('connect-refused')
         for before, after, op in zip(o, o[1:], ops):
             if op[0] == 2 and isinstance(before, list) and isinstance(after, list):
-                if len(before[-2]) == mx and len(after[-2]) == mx - 1:
+                if mx > 0 and len(before[-2]) == mx and len(after[-2]) == mx - 1:
                     cls.append('full-table-lost-a-peer')
                     break
+        if any(isinstance(s, list) and any(r[1] == [150, 0] for r in s[-2]) for s in o):
+            cls.append('score-clamped-at-max')
     return cls
 
 
@@ -27,9 +28,19 @@ PROPS = {
     'C31': dict(
         id='C31', cluster='P2P', crate='h-p2p', tag=31,
         n={'quick': 1500, 'thorough': 30000},
-        theorems=['stub_trace_nonempty'],
+        theorems=['slots_bounded', 'reserved_always_admitted', 'reserved_never_banned_by_score', 'score_le_max',
+                  'flag_iff_free_slot_partial', 'flag_iff_free_slot_refuted', 'new_peer_admitted_iff_free_slot',
+                  'peer_trace_ok', 'trace_checker_sound'],
         classify=_c31_classes,
-        rule='stub',
-        assumptions=[],
+        rule='replays of defect N1 (fill the table, lose a peer, lose a second one) for limits 1..3; bounded-exhaustive: every '
+             'connect/disconnect word of length 4 (5 thorough) over 3 non-reserved + 1 reserved peer for limits 0..3; score '
+             'boundaries (150, 150.5, 151, -50, -50.5, -51, +-2^-60) on a non-reserved and a reserved peer; gossip scores around '
+             '-16000; decay chains of 60 steps; plus random histories of 3..30 (60) events over 7 peers (0..2 reserved, limit 0..3) '
+             'with dyadic score deltas. non-trivial = distinct input with a non-empty observation',
+        assumptions=['scores and score deltas are finite f64 values in the normal range (no NaN, infinity, overflow, subnormal): '
+                     'the model computes every f64 operation as the exact dyadic result rounded to 53 bits, ties to even',
+                     'ConnectionTracker::allow_peer is observed through the hook config::verif_hooks (same SeqLock reader the '
+                     'service hands to the tracker); libp2p itself is not exercised',
+                     'flag <=> free slot is proved for limits >= 1 only; for the limit 0 the flag is never cleared (known finding)'],
         level='proof'),
 }
